@@ -8,11 +8,13 @@ HEADER = """C17 — Concurrent operations on sync nodes terminate and serialise.
    programs without isolate, multiset mirror at quiescence for connect/try_connect/query programs, agreement of the two
    semantics. REFUTED (c17_refuted_*, concrete schedules by vm_compute, each reproduced on the implementation): the full
    property — no panic, serialisable outcome — which fails because every mutation is two or more separately locked critical
-   sections (D11). These are the known findings of KNOWN_FINDINGS.txt. Serialisability is claimed only by the two BOUNDED
+   sections (D11). These are the known findings of KNOWN_FINDINGS.txt. Serialisability is PROVED without bounds for one
+   fragment (c17_forest_connects_serialisable: single-connect threads whose connects form a forest over the adjacency lists —
+   exactly the complement, within that fragment, of the eighth known-finding class) and otherwise claimed only by the two BOUNDED
    theorems (a finite space swept inside Coq by vm_compute and lifted with forallb_forall, the bound stated in the theorem):
    outside the classes of ConcClass.known_class every schedule of every two-thread single-call scenario on two nodes is
    serialisable; no theorem claims it for unbounded scenarios, and c17_refuted_cycle shows why one must not."""
-REQUIRES = ["From Coq Require Import Permutation.", "From Gdsl.Model Require Import Spec Conc.", "From Gdsl.Model Require Import ConcClass.", "From Gdsl.Proofs Require Import ConcProof ConcCycle ConcClassProof."]
+REQUIRES = ["From Coq Require Import Permutation.", "From Gdsl.Model Require Import Spec Conc.", "From Gdsl.Model Require Import ConcClass.", "From Gdsl.Proofs Require Import ConcProof ConcCycle ConcClassProof ConcForest."]
 PINS = [
  ("c17_one_guard_per_thread", "one_guard_per_thread", "in every reachable configuration a thread holds at most one guard, and only for the critical section it is parked at"),
  ("c17_no_deadlock", "no_deadlock", "no reachable configuration is deadlocked: while some thread is unfinished, some thread can move"),
@@ -21,6 +23,8 @@ PINS = [
  ("c17_connect_try_quiescent_mirror", "connect_try_quiescent_mirror", "the same with try_connect added"),
  ("c17_guards_refine_atomic", "gstep_refines_cstep", "every configuration reachable with explicit guards is reachable by atomic critical sections"),
  ("c17_atomic_refines_guards", "cstep_refines_gstep", "and conversely (with no guard held)"),
+ ("c17_forest_connects_serialisable", "forest_connects_serialisable_strong", "UNBOUNDED (every heap, any number of threads, every schedule, both flavours): threads that each make one connect, whose connects form a FOREST when seen as edges between the two adjacency lists they append to (prune .. = []): once all threads are done, every adjacency list — order included — and every result equal those of SOME sequential order of the same calls"),
+ ("c17_forest_hypothesis_needed", "forest_hypothesis_needed", "the forest hypothesis cannot be dropped: the four connects of c17_refuted_cycle are single connects, do not prune, and no sequential order reproduces the lists their schedule ends in"),
  ("c17_small_outside_classes_serialisable", "c17_small_outside_classes_serialisable", "BOUNDED (finite space, the bound is in the statement; not the unbounded property): every scenario of the space small_scenarios (2 nodes, every initial edge list of length <= 2, two threads with one call each out of all 28/24 calls) that is outside the known-finding classes: every maximal schedule ends with no panic, no poisoned lock, all threads done, and the outcome (results, final lists) of a serial schedule"),
  ("c17_len3_directed_outside_classes_good", "c17_len3_directed_outside_classes_good", "BOUNDED: the same decision for the directed flavour with initial edge lists of length <= 3 (66640 scenarios)"),
  ("c17_refuted_panic", "c17_refuted_panic", "REFUTATION: isolate || connect panics and poisons a lock"),
